@@ -217,6 +217,9 @@ func (r *Run) Violations() int { r.mu.Lock(); defer r.mu.Unlock(); return len(r.
 func (r *Run) Finish() {
 	r.mu.Lock()
 	for _, q := range r.required {
+		if r.Replay != "" {
+			break // a replay runs one case: coverage guards do not apply
+		}
 		if r.counters[q.counter] < q.min {
 			r.inconcl = append(r.inconcl, fmt.Sprintf("coverage guard: %s=%d < %d", q.counter, r.counters[q.counter], q.min))
 		}
